@@ -2,6 +2,7 @@ package main
 
 import (
 	"fmt"
+	"seata.apache.org/seata-go/pkg/protocol/branch"
 	"sort"
 	"strings"
 
@@ -381,6 +382,40 @@ func runC13(c *Ctx) {
 		chunks := partition(r, stream, 1+r.Intn(12))
 		emitFeed(cid, fs, chunks, true, len(stream))
 		c.Out.Count(fmt.Sprintf("frames.%d", len(fs)))
+	}
+	// (e) frames around and above 64 KiB (legal: the default max-msg-len is 102400): the total length passes the
+	// 16-bit boundary while the head length stays small; whole, cut in two, and followed by a second frame
+	for ti, total := range []int{65535, 65536, 65537, 65540, 65551, 65552, 65553, 70001, 102400} {
+		cid := fmt.Sprintf("big-%d", ti)
+		if !c.Want(cid) {
+			continue
+		}
+		mk := func(n int) (*frameSpec, []byte) {
+			f := &frameSpec{id: int32(1000 + ti), typ: byte(message.GettyRequestTypeRequestSync), hm: map[string]string{}}
+			f.body = message.BranchRegisterRequest{Xid: "10.0.0.1:8091:1", ResourceId: "res", LockKey: strings.Repeat("k", n), BranchType: branch.BranchTypeAT, ApplicationData: []byte("{}")}
+			wb, err := h.Write(nil, f.rpc())
+			if err != nil {
+				return nil, nil
+			}
+			f.writtenHex = wb
+			f.bodyHex = hx(codec.GetCodecManager().Encode(codec.CodecTypeSeata, f.body))
+			return f, wb
+		}
+		_, base := mk(0)
+		if base == nil || total < len(base) {
+			continue
+		}
+		f, wb := mk(total - len(base))
+		r := rng.Fork()
+		small, tail, ok := mkStream(r, 1)
+		if f == nil || !ok || len(wb) != total {
+			continue
+		}
+		stream := append(append([]byte{}, wb...), tail...)
+		fs := append([]*frameSpec{f}, small...)
+		cut := 1 + r.Intn(total-1)
+		emitFeed(cid, fs, [][]byte{stream[:cut], stream[cut:]}, true, len(stream))
+		c.Out.Count("big-frames")
 	}
 	// (d) arbitrary non-frame bytes
 	for i := 0; i < nGarbage; i++ {
